@@ -344,8 +344,13 @@ func checkC07(w *World, c *Check) {
 		}
 	}
 
+	gobDispatchObligations(w, c, "C07", names, entry)
+}
+
+// gobDispatchObligations: the type dispatch of gobEncodeItem / gobDecodeItem, per vocabulary name.
+func gobDispatchObligations(w *World, c *Check, P string, names []string, entry map[string]vocabEntry) {
 	// ---- gob: encode dispatch and decode dispatch ----
-	guard(c, "C07/gob/encode", func() {
+	guard(c, P+"/gob/encode", func() {
 		for _, gt := range allStructNames {
 			gt := gt
 			var ns []string
@@ -354,7 +359,7 @@ func checkC07(w *World, c *Check) {
 					ns = append(ns, n)
 				}
 			}
-			grp := "C07/gob/encode/go=" + gt
+			grp := P + "/gob/encode/go=" + gt
 			guard(c, grp, func() {
 				ex := w.NewExec()
 				st := newState()
@@ -378,14 +383,14 @@ func checkC07(w *World, c *Check) {
 							called = append(called, rec.C)
 						}
 					}
-					c.Add(&Obligation{Name: fmt.Sprintf("C07/gob/encode/name=%s", n), Group: grp, Common: common, Hyps: []*Term{Eq(typ, StrLit(n))},
+					c.Add(&Obligation{Name: fmt.Sprintf(P+"/gob/encode/name=%s", n), Group: grp, Common: common, Hyps: []*Term{Eq(typ, StrLit(n))},
 						Goal: And(Eq(err, ErrNil), Or(called...), Not(ex.calledOther([]string{"("}, "("+gt+").GobEncode"))), Pos: "gobEncodeItem",
 						Funcs: []string{"gobEncodeItem", "GobEncode"}, Replay: c07GobReplay(n, gt)})
 				}
 			})
 		}
 	})
-	guard(c, "C07/gob/decode", func() {
+	guard(c, P+"/gob/decode", func() {
 		ex := w.NewExec()
 		st := newState()
 		c07InstallLoaderContracts(ex, w, "unmap")
@@ -396,8 +401,12 @@ func checkC07(w *World, c *Check) {
 		mmObj.init = func() Value {
 			return &MapContent{Ents: []MapEnt{{C: hasType, K: StrLit("type"), V: typB}, {C: TTrue, K: StrLit("id"), V: idB}}}
 		}
-		ex.hooks["tryDecodeItems"] = func(ex *Exec, st *State, fn *ssa.Function, a []Value) (Value, bool) { return freshErr(ex, "notitems"), true }
-		ex.hooks["tryDecodeIRIs"] = func(ex *Exec, st *State, fn *ssa.Function, a []Value) (Value, bool) { return freshErr(ex, "notiris"), true }
+		ex.hooks["tryDecodeItems"] = func(ex *Exec, st *State, fn *ssa.Function, a []Value) (Value, bool) {
+			return freshErr(ex, "notitems"), true
+		}
+		ex.hooks["tryDecodeIRIs"] = func(ex *Exec, st *State, fn *ssa.Function, a []Value) (Value, bool) {
+			return freshErr(ex, "notiris"), true
+		}
 		ex.hooks["gobDecodeObjectAsMap"] = func(ex *Exec, st *State, fn *ssa.Function, a []Value) (Value, bool) {
 			m := fn.Signature.Results().At(0).Type().Underlying().(*types.Map)
 			return &TupleVal{V: []Value{&MapVal{K: m.Key(), V: m.Elem(), Alts: []MapAlt{{C: TTrue, O: mmObj}}}, ErrNil}}, true
@@ -414,9 +423,9 @@ func checkC07(w *World, c *Check) {
 			if n == "" {
 				hy = []*Term{Not(hasType)}
 			}
-			c.Add(&Obligation{Name: "C07/gob/decode/name=" + n, Group: "C07/gob/decode", Common: common, Hyps: hy,
+			c.Add(&Obligation{Name: P + "/gob/decode/name=" + n, Group: P + "/gob/decode", Common: common, Hyps: hy,
 				Goal: And(Eq(err, ErrNil), ex.dynIs(iv, T), nonNilPtr(p), ex.calledWith(loader, 1, p), Not(ex.calledOther([]string{"unmap"}, loader))),
-				Pos: "gobDecodeItem", Funcs: []string{"gobDecodeItem", "GobDecode", "GetItemByType"}, Replay: c07GobReplay(n, e.GoType)})
+				Pos:  "gobDecodeItem", Funcs: []string{"gobDecodeItem", "GobDecode", "GetItemByType"}, Replay: c07GobReplay(n, e.GoType)})
 		}
 	})
 }
